@@ -30,29 +30,6 @@ theorem forceDelete_eq_remove {c : Cx α} {n : α}
     rw [List.filter_eq_self]; intro x hx; simpa using fun (e : x = n) => hb (e ▸ hx)
   cases t; simp_all
 
-/-- under `Inv`, every point of a simplex's basis is (the name of) an order-0 simplex inside it -/
-theorem Inv.basis_point {c : Cx α} (h : Inv c) :
-    ∀ (k : Nat) {u : Simp α}, u ∈ c.simps → u.order = k → ∀ p ∈ u.basis,
-      ∃ t ∈ c.simps, t.name = p ∧ t.order = 0 ∧ t.pts ⊆ u.pts := by
-  intro k
-  induction k with
-  | zero =>
-    intro u hu h0 p hp
-    have := (h.point u hu h0).2
-    rw [this, List.mem_singleton] at hp
-    subst hp
-    exact ⟨u, hu, rfl, h0, Finset.Subset.refl _⟩
-  | succ k ih =>
-    intro u hu hk p hp
-    obtain ⟨-, -, hfex, -, -, hbiff⟩ := h.higher u hu (by omega)
-    obtain ⟨f, hf, t, ht, hn, hpt⟩ := (hbiff p).mp hp
-    obtain ⟨t', ht', hn', ho'⟩ := hfex f hf
-    have : t' = t := h.name_inj ht' ht (hn'.trans hn.symm)
-    subst this
-    obtain ⟨q, hq, h1, h2, h3⟩ := ih ht' (by omega) p hpt
-    refine ⟨q, hq, h1, h2, h3.trans ?_⟩
-    exact ((h.faces_are_facets hu ht' (by omega)).mp (hn' ▸ hf)).2
-
 /-- an up-closed set that contains a simplex contains everything above it -/
 theorem UpClosed.of_subset {c : Cx α} (h : Inv c) {D : α → Prop} (hD : UpClosed c D) :
     ∀ (r : Nat) {t u : Simp α}, t ∈ c.simps → u ∈ c.simps → u.order = t.order + r → t.pts ⊆ u.pts →
